@@ -9,6 +9,7 @@
 use std::{
     net::{IpAddr, Ipv4Addr, Ipv6Addr},
     sync::Mutex,
+    time::Duration,
 };
 
 use refscion::wire::{RHop, RInfo, RPacket, RPath, RScmp, RStdPath};
@@ -205,11 +206,17 @@ fn judge(m: &mut Mon, hook: &IngressHook, datagram: &[u8], peer: IpAddr, local: 
         Ok(d) => d,
     };
     let calls = rec.calls.lock().unwrap().clone();
+    judge_decision(m, decision, calls, datagram, peer, must_pass, family, replay, "");
+}
+
+/// judges one observed decision (from the hook wrapper or from the live gateway)
+#[allow(clippy::too_many_arguments)]
+fn judge_decision(m: &mut Mon, decision: IngressDecision, calls: Vec<Vec<u8>>, datagram: &[u8], peer: IpAddr, must_pass: bool, family: &'static str, replay: serde_json::Value, via: &'static str) {
     let pos = positional(datagram);
     let refdec = RPacket::decode(datagram);
     match decision {
         IngressDecision::Dispatched => {
-            m.count("dispatched");
+            m.count(&format!("{via}dispatched"));
             m.shape(&("dispatched", family, pos.as_ref().map(|p| p.path_type), datagram.len().min(3)));
             if calls.len() != 1 {
                 m.violation("dispatch-count", format!("{} dispatch calls for one accepted datagram", calls.len()), replay.clone());
@@ -230,7 +237,7 @@ fn judge(m: &mut Mon, hook: &IngressHook, datagram: &[u8], peer: IpAddr, local: 
                 // sciparse's packet view deliberately admits a payload shorter than PayloadLen
                 // ("the payload may be truncated"); the header must be complete and consistent
                 Err(refscion::wire::RErr::Short("payload")) => {
-                    m.count("dispatched_with_truncated_payload");
+                    m.count(&format!("{via}dispatched_with_truncated_payload"));
                     if calls.first().map(|c| c.len()) != Some(datagram.len()) {
                         m.violation("dispatched:different-extent", "truncated-payload packet not dispatched in full", replay.clone());
                     }
@@ -251,8 +258,8 @@ fn judge(m: &mut Mon, hook: &IngressHook, datagram: &[u8], peer: IpAddr, local: 
             }
         }
         IngressDecision::ScmpReply(reply) => {
-            m.count("refused");
-            m.count("scmp_replies");
+            m.count(&format!("{via}refused"));
+            m.count(&format!("{via}scmp_replies"));
             if must_pass {
                 m.violation("valid-packet-refused", "a valid packet from the peer over a standard/empty path was refused", replay.clone());
             }
@@ -292,8 +299,8 @@ fn judge(m: &mut Mon, hook: &IngressHook, datagram: &[u8], peer: IpAddr, local: 
             }
         }
         IngressDecision::NoReply => {
-            m.count("refused");
-            m.count("no_reply");
+            m.count(&format!("{via}refused"));
+            m.count(&format!("{via}no_reply"));
             m.shape(&("noreply", family, datagram.len() > 8000));
             if must_pass {
                 m.violation("valid-packet-refused", "a valid packet from the peer over a standard/empty path was refused", replay.clone());
@@ -408,6 +415,63 @@ pub fn run(args: &Args, mon: &mut Mon) -> (String, Vec<&'static str>) {
             }
         }
     });
+    // ---- the same families through the live gateway (real start_server loop, real tunnel)
+    let n_live: u64 = args.param_u64("live", if thorough { 8_000 } else { 1_500 });
+    if n_live > 0 && !cfg!(miri) {
+        mon.floor("live:dispatched", 50);
+        mon.floor("live:scmp_replies", 200);
+        let rt = tokio::runtime::Builder::new_multi_thread().worker_threads(2).enable_all().build().unwrap();
+        let res: anyhow::Result<()> = rt.block_on(async {
+            let mut live = crate::c08e2e::Live::start(seed).await?;
+            let peer = live.peer_ip;
+            let mut r = Rng::fork(seed, 0x08e2);
+            for i in 0..n_live {
+                // a fresh gateway and tunnel every 400 packets: a session stays well inside
+                // WireGuard's 120 s rekey interval even under a sanitizer
+                if i > 0 && i % 400 == 0 {
+                    live = crate::c08e2e::Live::start(seed ^ i).await?;
+                    mon.count("live:sessions");
+                }
+                let b = build(&mut r, peer);
+                // the built packet and one mutation of it
+                let mut variants: Vec<(Vec<u8>, bool, &'static str)> = vec![(b.bytes.clone(), b.must_pass, b.family)];
+                let mut d = b.bytes.clone();
+                match i % 4 {
+                    0 => d[9] = r.u8(),
+                    1 => d[8] = r.u8(),
+                    2 => {
+                        let hl = (d[5] as usize * 4).min(d.len());
+                        let bit = r.usize(hl.max(1) * 8);
+                        d[bit / 8] ^= 1 << (bit % 8);
+                    }
+                    _ => d.truncate(r.usize(d.len().max(1))),
+                }
+                variants.push((d, false, "live-mutated"));
+                for (dg, must_pass, family) in variants {
+                    if dg.is_empty() || dg.len() > BUF - 64 {
+                        continue;
+                    }
+                    mon.eval();
+                    let replay = json!({"case": {"seed": seed, "live_index": i}, "family": family, "peer": peer.to_string(), "via": "live gateway", "datagram": hex(&dg[..dg.len().min(400)]), "datagram_len": dg.len()});
+                    match live.send(&dg).await? {
+                        crate::c08e2e::Outcome::Dispatched(calls) => judge_decision(mon, IngressDecision::Dispatched, calls, &dg, peer, must_pass, family, replay, "live:"),
+                        crate::c08e2e::Outcome::Replies(replies, calls) => {
+                            if replies.len() > 1 {
+                                mon.violation("more-than-one-scmp-reply", format!("{} packets came back for one refused datagram", replies.len()), replay.clone());
+                            }
+                            judge_decision(mon, IngressDecision::ScmpReply(replies[0].clone()), calls, &dg, peer, must_pass, family, replay, "live:")
+                        }
+                        crate::c08e2e::Outcome::Nothing => judge_decision(mon, IngressDecision::NoReply, vec![], &dg, peer, must_pass, family, replay, "live:"),
+                    }
+                }
+            }
+            Ok(())
+        });
+        if let Err(e) = res {
+            mon.inconclusive(format!("live gateway run failed: {e:#}"));
+        }
+        rt.shutdown_timeout(Duration::from_secs(2));
+    }
     mon.sample_labeled("families", || json!(["valid", "built-invalid (spoofed/unknown source types, one-hop/EPIC/unknown paths)", "addr-type-byte x256", "path-type-byte x256", "length-fields", "truncated", "header-bitflip", "random", "random-headerish", "trailing", "other-peer"]));
     (
         format!("{n} packets built by the reference encoder (source host = peer / one bit off / other family incl. v4-mapped / service / unused lengths 8 and 12 / unknown types / random; paths empty, standard, one-hop, EPIC, COLIBRI and unknown types; destinations of all types; payloads 0..9000 B) against peers v4, v6, v4-mapped, unspecified; each additionally mutated: all 256 values of the address type/length byte, all 256 path types, header/payload length and version fields, truncation at every header offset, header bit flips, random byte strings of boundary sizes up to 9216, trailing bytes, other peers. The gateway decision is taken through the verif-hooks wrapper around inbound_datagram_check / try_dispatch / create_scmp_error. distinct = (decision, family, path type, SCMP code, source kind) classes."),
